@@ -12,6 +12,7 @@
 // Documented ranges respected by the generators: sizes / orders / rates >= 1, scalar subscripts valid, arrays
 // non-empty where a reduction needs an element (max/min/median/…), finite sample values.
 #include "common.hpp"
+#include <numeric>
 #include <sys/wait.h>
 #include <sys/mman.h>
 #include <sstream>
@@ -619,6 +620,21 @@ static void sec_rateconv() {
             std::optional<FIRRateConverter> f;
             if (call("FIRRateConverter.ctor", J({L, M}), [&] { f.emplace(L, M); })) continue;
             for (int lx : {0, M, 5 * M, 5 * M + 1}) call("FIRRateConverter.default.process", J({L, M, lx}), [&] { use(f->process(rdata(lx))); });
+        }
+    // decimation factors around the 16-bit boundaries (the per-branch input offsets run up to M - 1: a 16-bit offset table wraps or goes
+    // negative there — once a real defect, repaired in /repo): one and two frames of M samples, short coefficient vectors
+    for (int L : {2, 3})
+        for (int M : {32767, 32768, 32769, 40001, 65535, 65536, 65537}) {
+            if (std::gcd(L, M) != 1) continue;
+            for (int lh : {1, 8, 2 * L + 1}) {
+                std::optional<FIRRateConverter> f;
+                if (call("FIRRateConverter.ctor-h", J({L, M, lh}), [&] { f.emplace(L, M, rdata(lh, 2)); use(real_t(f->delay() + f->decim_rate() + f->interp_rate())); })) continue;
+                for (int lx : {M, 2 * M, 0, M + 1}) {
+                    int shape = -1;
+                    int r = call("FIRRateConverter.process", J({L, M, lh, lx}), [&] { auto y = f->process(rdata(lx)); use(y); shape = y.size(); });
+                    guard("rateconv", {L, M, lh, lx}, r, {shape});
+                }
+            }
         }
 }
 static void sec_resample() {
